@@ -210,7 +210,9 @@ int main(void) {
       char *txt = unhex(strtok_r(NULL, " ", &save));
       if (!raw[id]) block_behind(inst[id]);
       mute_begin(id);
-      int rc = asm_assemble_str(inst[id], txt);
+      /* (every other call goes through the deprecated alias: it is documented as the same function) */
+      static unsigned na;
+      int rc = (na++ & 1) ? assemble_str(inst[id], txt) : asm_assemble_str(inst[id], txt);
       mute_end(id);
       printf("%d %d\n", rc, asm_get_offset(inst[id]));
       free(txt);
@@ -223,7 +225,9 @@ int main(void) {
       int dest = -777;
       if (!raw[id]) block_behind(inst[id]);
       mute_begin(id);
-      int rc = asm_assemble_string_counting_chunks(inst[id], txt, c, d ? &dest : NULL);
+      static unsigned nc;
+      int rc = (nc++ & 1) ? assemble_string_counting_chunks(inst[id], txt, c, d ? &dest : NULL)
+                          : asm_assemble_string_counting_chunks(inst[id], txt, c, d ? &dest : NULL);
       mute_end(id);
       if (d) printf("%d %d %d\n", rc, asm_get_offset(inst[id]), dest);
       else printf("%d %d -\n", rc, asm_get_offset(inst[id]));
@@ -234,7 +238,8 @@ int main(void) {
       char *path = strtok_r(NULL, " ", &save);
       if (!raw[id]) block_behind(inst[id]);
       mute_begin(id);
-      int rc = asm_assemble_file(inst[id], path);
+      static unsigned nr;
+      int rc = (nr++ & 1) ? assemble_file(inst[id], path) : asm_assemble_file(inst[id], path);
       mute_end(id);
       printf("%d %d\n", rc, asm_get_offset(inst[id]));
       break;
